@@ -82,6 +82,25 @@ CHECKS["C06"] = dict(
     note="Ground attribution comes from the real finder.find; outputs are parsed back from stdout / coverage.json; a slice also runs as real subprocesses.",
 )
 
+CHECKS["C08"] = dict(
+    cat="model_checking", ref="DESIGN.md §3 C08",
+    technique="explicit-state exploration of compile-command histories: every command sequence of length <=3 for one platform and pairs (thorough: triples) of sequences for several platforms over a 10-command alphabet on a leak-prone code base, each executed by the real finder.find; invariant = the association equals the union of fresh single-command analyses; -p projections through the CLIs",
+    text="Every bounded history of compile commands is run on the real code from a fresh state and must reach exactly the union, per platform, of the single-command results (no macro, include-once mark, include memo or token mutation leaks between commands or platforms); all orders of a multiset coincide; codebasin -p / cbi-tree -p give the projection of the full result.",
+    note="Differential oracle (implementation alone from a fresh state); the code base contains every leak channel found by reading the code.",
+)
+CHECKS["C10"] = dict(
+    cat="exploration", ref="DESIGN.md §3 C10",
+    technique="exhaustive enumeration of all subsets of the files of two code-base variants x up to 4 git-confirmed pattern renderings, each analysed with and without the exclusion by the real finder.find; -x vs analysis-file equivalence through the three front ends",
+    text="For every subset of files and every rendering of an exclude list matching exactly it, the attribution of all remaining files must be unchanged and the matched files' lines must vanish from every platform set; headers outside the root contribute nothing but their macros keep their effect; -x on the command line equals exclude= in the analysis file.",
+    note="Pattern renderings are confirmed with git check-ignore; differential oracle.",
+)
+CHECKS["C15"] = dict(
+    cat="exploration", ref="DESIGN.md §3 C15",
+    technique="bounded-exhaustive enumeration of alias decorations (six alias sites: compiled-file spellings on two platforms, -I spelling, second include of a #pragma once header, nested include spelling, extra links) of a canonical code base, differential against the canonical-path code base",
+    text="Every combination of <=3 (quick) / all (thorough) aliased sites is analysed by the real code and must give the setmap, per-line attribution and tree set of the canonical-path code base; links add nothing, a link to a file outside is not a member.",
+    note="Differential oracle: the implementation on canonical paths.",
+)
+
 PENDING = {}
 
 
